@@ -236,15 +236,9 @@ Definition wf_op_b (s : spec) (o : op) : bool :=
   | _ => true
   end.
 
-(** ops inside the refinement theorem; [GetCommittedState] is specified (it must return the value
-    as of the block start) but the code does not implement that: it stays in the predicate that
-    is evaluated on traces and outside the theorem *)
-Definition thm_op (o : op) : bool :=
-  match o with
-  | GetCommitted _ _ => false
-  | SetCode _ c => negb (is_nil c)      (* SetCode(nil) is specified (code := empty); the code keeps the old code *)
-  | _ => true
-  end.
+(** ops inside the refinement theorem: all of them, since GetCommittedState (the value as of the
+    block start) and SetCode(nil) (code := empty) were repaired *)
+Definition thm_op (o : op) : bool := true.
 Definition wf_thm_b (s : spec) (o : op) : bool :=
   wf_op_b s o && thm_op o && (if sp_pend s then match o with Commit _ => true | _ => false end else true).
 
@@ -457,8 +451,9 @@ Definition judge_group (e : env) (cfgs : list cfg) (mode : N) (g : list hcase) :
 (** all sub-configurations of a configuration (the subset lattice of DESIGN 3.3) *)
 Definition cfg_subsets (c : cfg) : list cfg :=
   let opt (b : bool) := if b then [true; false] else [false] in
-  flat_map (fun a => flat_map (fun b => flat_map (fun c' => flat_map (fun d => flat_map (fun e' => map (fun f =>
-    mkCfg a b c' d e' f) (opt (d_rb_head_dirty c))) (opt (d_orphan_changer c))) (opt (d_addstate_origin c)))
+  flat_map (fun a => flat_map (fun b => flat_map (fun c' => flat_map (fun d => flat_map (fun e' => flat_map (fun f =>
+    flat_map (fun g => map (fun h => mkCfg a b c' d e' f g h) (opt (d_setcode_nil c))) (opt (d_getcommitted c)))
+    (opt (d_rb_head_dirty c))) (opt (d_orphan_changer c))) (opt (d_addstate_origin c)))
     (opt (d_query_cache c))) (opt (d_query_nil c))) (opt (d_query_dupkey c)).
 
 (** the open (not repaired) defects of the tree the checks run against *)
